@@ -41,6 +41,10 @@ func c04Alphabet(full bool) []jr.Dir {
 				a = append(a, jr.A(d, jr.Bal{Acc: acc, Qty: v, Com: "CHF"}))
 			}
 		}
+		// dates far outside the range of nanosecond timestamps (1678..2262) and an expense
+		// booking with the (possibly closed) account on the credit side of its first booking
+		a = append(a, jr.O("1600-01-01", acc), jr.C("9999-12-31", acc), jr.A("2300-01-01", jr.Bal{Acc: acc, Qty: "0", Com: "CHF"}),
+			jr.T(d2, "e2", jr.B("Expenses:Rent", food, "1", "CHF")))
 		// a position strictly between -1 and 0 (sign and integer part "0") and its assertions
 		a = append(a, jr.T(d1, "h", jr.B(acc, food, "0.5", "CHF")), jr.A(d2, jr.Bal{Acc: acc, Qty: "-0.5", Com: "CHF"}), jr.A(d2, jr.Bal{Acc: acc, Qty: "0.50", Com: "CHF"}))
 		// an income/expense account has no tracked position: close must still close it
@@ -56,8 +60,9 @@ func c04Alphabet(full bool) []jr.Dir {
 	}
 	for _, d := range []string{d1, d2} {
 		r := "Expenses:Rent"
-		a = append(a, jr.O(d, r), jr.C(d, r), jr.T(d, "e", jr.B(food, r, "1", "CHF")))
+		a = append(a, jr.O(d, r), jr.C(d, r), jr.T(d, "e", jr.B(food, r, "1", "CHF")), jr.T(d, "e2", jr.B(r, food, "1", "CHF")))
 	}
+	a = append(a, jr.O("1600-01-01", "Assets:Bank"), jr.C("9999-12-31", "Assets:Bank"), jr.A("2300-01-01", jr.Bal{Acc: "Assets:Bank", Qty: "0", Com: "CHF"}))
 	a = append(a, jr.Dir{Kind: jr.Trx, Date: d1, Desc: "accr", Books: []jr.Booking{jr.B("Assets:Bank", "Expenses:Rent", "0.2", "CHF")},
 		Accrue: &jr.Accrual{Interval: "daily", Start: d1, End: "2020-02-01", Acc: food}},
 		jr.Dir{Kind: jr.Trx, Date: d1, Desc: "accr", Books: []jr.Booking{jr.B("Assets:Bank", "Expenses:Rent", "30", "CHF")},
